@@ -5,6 +5,7 @@ From AGH Require Import Base.Run Model.Schedule Proofs.Schedule.
 From AGH Require Import Model.ScheduleText Proofs.ScheduleText Proofs.DurationText.
 From AGH Require Import Model.BlockedSvcHttp Proofs.BlockedSvcHttp.
 From AGH Require Import Model.BlockedSvcClient Proofs.BlockedSvcClient.
+From AGH Require Import Model.ScheduleZone Proofs.ScheduleZone.
 Local Open Scope Z_scope.
 
 (** For every zone (any offset function), instant and schedule: in effect
@@ -471,3 +472,239 @@ Theorem C18_reset_inside_branch_refuted :
     request_services zoff known g (Some c) t t = nil.
 Proof. exact reset_inside_branch_refuted. Qed.
 Print Assumptions C18_reset_inside_branch_refuted.
+
+(** * The two switches of a persistent client (client/storage.go
+    ApplyClientFiltering as it stands: the blocked-services assignment before
+    the early return on UseOwnSettings)
+
+    Which list and schedule a request of a persistent client gets depends on
+    use_global_blocked_services only: the client's own list under the
+    client's own schedule iff the client does not use the global blocked
+    services, whatever use_global_settings says. *)
+Theorem C18_client_request_services : forall zoff known g c t1 t2,
+  request_services zoff known g (Some c) t1 t2 =
+  if cl_use_own c
+  then (if paused zoff (bs_sched (cl_bsvc c)) t2 then nil
+        else filter (id_known known) (bs_ids (cl_bsvc c)))
+  else (if paused zoff (bs_sched g) t1 then nil else filter (id_known known) (bs_ids g)).
+Proof. exact client_request_services. Qed.
+Print Assumptions C18_client_request_services.
+
+Theorem C18_own_services_independent_of_own_settings : forall zoff known g c c' t1 t2,
+  cl_use_own c = cl_use_own c' -> cl_bsvc c = cl_bsvc c' ->
+  request_services zoff known g (Some c) t1 t2 = request_services zoff known g (Some c') t1 t2.
+Proof. exact own_services_independent_of_own_settings. Qed.
+Print Assumptions C18_own_services_independent_of_own_settings.
+
+Theorem C18_flip_own_settings_keeps_services : forall zoff known g c b f t1 t2,
+  request_services zoff known g (Some (with_own_settings b f c)) t1 t2 =
+  request_services zoff known g (Some c) t1 t2.
+Proof. exact flip_own_settings_keeps_services. Qed.
+Print Assumptions C18_flip_own_settings_keeps_services.
+
+(** The other way round: the general settings of the request (represented by
+    FilteringEnabled) follow use_global_settings only. *)
+Theorem C18_own_settings_independent_of_own_services : forall zoff known gf g c t1 t2,
+  request_filtering zoff known gf g c t1 t2 =
+  match c with
+  | Some c => if cl_use_own_settings c then cl_filtering c else gf
+  | None => gf
+  end.
+Proof. exact request_filtering_spec. Qed.
+Print Assumptions C18_own_settings_independent_of_own_services.
+
+(** The order of seeded change C18-I (early return first) violates the
+    clause: own services, global settings, own schedule in pause, a non-empty
+    global list not in pause: the global list is applied.  It differs from the
+    code only on clients with own blocked services and global settings. *)
+Theorem C18_early_return_order_refuted :
+  exists zoff known g c t,
+    cl_use_own c = true /\ cl_use_own_settings c = false /\
+    in_pause zoff (bs_sched (cl_bsvc c)) t /\
+    ~ in_pause zoff (bs_sched g) t /\ filter (id_known known) (bs_ids g) <> nil /\
+    se_rules (apply_additional_filtering_c18i zoff known g (Some c) t t fresh_settings)
+      = filter (id_known known) (bs_ids g) /\
+    request_services zoff known g (Some c) t t = nil.
+Proof. exact early_return_order_refuted. Qed.
+Print Assumptions C18_early_return_order_refuted.
+
+Theorem C18_early_return_order_differs_only_there : forall zoff known g c t1 t2 se,
+  (cl_use_own c = false \/ cl_use_own_settings c = true) ->
+  se_rules (apply_additional_filtering_c18i zoff known g (Some c) t1 t2 se) =
+  se_rules (apply_additional_filtering zoff known g (Some c) t1 t2 se).
+Proof. exact early_return_order_differs_only_there. Qed.
+Print Assumptions C18_early_return_order_differs_only_there.
+
+Example C18_four_combinations_example :
+  let req b own t := request_services ex_zoff ex_known ex_global
+                       (Some {| cl_use_own_settings := b; cl_filtering := false;
+                                cl_use_own := own; cl_bsvc := cl_bsvc ex_client |}) t t in
+  req false true (4 * ns_hour) = nil /\ req true true (4 * ns_hour) = nil /\
+  req false true (12 * ns_hour) = cons (cons 98%N nil) nil /\
+  req true true (12 * ns_hour) = cons (cons 98%N nil) nil /\
+  req false false (4 * ns_hour) = cons (cons 97%N nil) (cons (cons 98%N nil) nil) /\
+  req true false (4 * ns_hour) = cons (cons 97%N nil) (cons (cons 98%N nil) nil) /\
+  request_filtering ex_zoff ex_known true ex_global
+    (Some {| cl_use_own_settings := true; cl_filtering := false; cl_use_own := false;
+             cl_bsvc := cl_bsvc ex_client |}) 0 0 = false /\
+  request_filtering ex_zoff ex_known true ex_global
+    (Some {| cl_use_own_settings := false; cl_filtering := false; cl_use_own := true;
+             cl_bsvc := cl_bsvc ex_client |}) 0 0 = true.
+Proof. exact ex_four_combinations. Qed.
+Print Assumptions C18_four_combinations_example.
+
+(** * The whole document, "time_zone" member included (Model/ScheduleZone.v)
+
+    [known]: the tz database (ANY set of names).  [load_location known] is
+    time.LoadLocation: "" and "UTC" are UTC, "Local" is Local, a name with
+    ".." or a leading slash is refused, every other ("plain") name is loaded
+    iff the database has it, and the location reports that very name.  The
+    zone name is an opaque string for the text layer. *)
+Theorem C18_load_location_plain : forall known name,
+  plain_name name = true ->
+  load_location known name = if known name then Some name else None.
+Proof. exact load_location_plain. Qed.
+Print Assumptions C18_load_location_plain.
+
+(** What a marshaller writes (the name the location reports) loads again, as
+    itself. *)
+Theorem C18_loaded_name_reloads : forall known name z,
+  load_location known name = Some z -> load_location known z = Some z.
+Proof. exact loaded_name_reloads. Qed.
+Print Assumptions C18_loaded_name_reloads.
+
+(** The decoder accepts a document iff its bounds validate AND the tz
+    database knows the name; nothing else about the name matters. *)
+Theorem C18_decode_accepts_iff : forall known parse d,
+  (exists sc, decode_zdoc known parse d = inr sc) <->
+  (exists w, unmarshal_fields parse 7 (zd_fields d) = inr w) /\
+  (exists z, load_location known (zd_zone d) = Some z).
+Proof. exact decode_accepts_iff. Qed.
+Print Assumptions C18_decode_accepts_iff.
+
+Theorem C18_decode_accepts_iff_zone_known : forall known parse d sc,
+  plain_name (zd_zone d) = true ->
+  (decode_zdoc known parse d = inr sc <->
+   known (zd_zone d) = true /\ sc_zone sc = zd_zone d /\
+   unmarshal_fields parse 7 (zd_fields d) = inr (sc_days sc)).
+Proof. exact decode_accepts_iff_zone_known. Qed.
+Print Assumptions C18_decode_accepts_iff_zone_known.
+
+Theorem C18_decode_unknown_zone_rejected : forall known parse d,
+  plain_name (zd_zone d) = true -> known (zd_zone d) = false ->
+  forall sc, decode_zdoc known parse d <> inr sc.
+Proof. exact decode_unknown_zone_rejected. Qed.
+Print Assumptions C18_decode_unknown_zone_rejected.
+
+(** The text layer is transparent for the zone too: for every week of int64
+    bounds, validated or not, in a zone of any name, the verdict on the
+    written document is the verdict of time.LoadLocation on the stored name
+    and of the validation on the stored bounds. *)
+Theorem C18_yaml_zdoc_transparent : forall known sc,
+  length (sc_days sc) = 7%nat -> Forall int64_range (sc_days sc) ->
+  decode_zdoc known parse_yaml_dur (marshal_zdoc tu_string sc) =
+  match load_location known (sc_zone sc) with
+  | None => inl ZZone
+  | Some z =>
+      match unmarshal_ranges (sc_days sc) with
+      | inl (i, e) => inl (ZRange i e)
+      | inr w => inr {| sc_zone := z; sc_days := w |}
+      end
+  end.
+Proof. exact yaml_zdoc_transparent. Qed.
+Print Assumptions C18_yaml_zdoc_transparent.
+
+Theorem C18_json_zdoc_transparent : forall known sc,
+  length (sc_days sc) = 7%nat -> Forall ms_range (sc_days sc) ->
+  decode_zdoc known parse_json_dur (marshal_zdoc print_ms_text sc) =
+  match load_location known (sc_zone sc) with
+  | None => inl ZZone
+  | Some z =>
+      match unmarshal_ranges (sc_days sc) with
+      | inl (i, e) => inl (ZRange i e)
+      | inr w => inr {| sc_zone := z; sc_days := w |}
+      end
+  end.
+Proof. exact json_zdoc_transparent. Qed.
+Print Assumptions C18_json_zdoc_transparent.
+
+(** The round-trip clause over EVERY zone the database offers: a validated
+    schedule located in a zone of any plain name the database has (letters,
+    digits, [/], [_], [-], [+], three levels, links: no condition on the
+    characters) reads back unchanged, zone name and bounds, from YAML and from
+    JSON; so does a schedule in UTC or Local. *)
+Theorem C18_roundtrip_yaml_zone : forall known sc,
+  sched_ok sc -> zone_reloads known (sc_zone sc) ->
+  decode_zdoc known parse_yaml_dur (marshal_zdoc tu_string sc) = inr sc.
+Proof. exact yaml_zdoc_roundtrip. Qed.
+Print Assumptions C18_roundtrip_yaml_zone.
+
+Theorem C18_roundtrip_json_zone : forall known sc,
+  sched_ok sc -> zone_reloads known (sc_zone sc) ->
+  decode_zdoc known parse_json_dur (marshal_zdoc print_ms_text sc) = inr sc.
+Proof. exact json_zdoc_roundtrip. Qed.
+Print Assumptions C18_roundtrip_json_zone.
+
+Theorem C18_roundtrip_every_known_zone : forall known z w,
+  plain_name z = true -> known z = true -> length w = 7%nat -> weekly_ok w ->
+  let sc := {| sc_zone := z; sc_days := w |} in
+  decode_zdoc known parse_yaml_dur (marshal_zdoc tu_string sc) = inr sc /\
+  decode_zdoc known parse_json_dur (marshal_zdoc print_ms_text sc) = inr sc.
+Proof. exact zdoc_roundtrip_every_known_zone. Qed.
+Print Assumptions C18_roundtrip_every_known_zone.
+
+(** Configuration saved and loaded again, a GET answer sent back: whatever a
+    decoder accepted, from either form, is written and read back as the same
+    schedule in both forms. *)
+Theorem C18_decoded_reads_back : forall known parse d sc,
+  decode_zdoc known parse d = inr sc ->
+  decode_zdoc known parse_yaml_dur (marshal_zdoc tu_string sc) = inr sc /\
+  decode_zdoc known parse_json_dur (marshal_zdoc print_ms_text sc) = inr sc.
+Proof. exact decoded_reads_back. Qed.
+Print Assumptions C18_decoded_reads_back.
+
+(** The HTTP path: an update with a validated schedule in any zone the
+    database offers is accepted and GET reports that zone and those bounds. *)
+Theorem C18_update_every_known_zone : forall tz tbl ids sc s,
+  sched_ok sc -> zone_reloads tz (sc_zone sc) -> ids_known tbl ids = true ->
+  let o := OUpdate (Some (sched_doc_of tz (marshal_zdoc print_ms_text sc))) ids in
+  step tbl o s = (st_ok, {| bs_ids := ids; bs_sched := sc |}) /\
+  get (snd (step tbl o s)) = (ids, sc_zone sc, marshal_json_text (sc_days sc)).
+Proof. exact update_every_known_zone. Qed.
+Print Assumptions C18_update_every_known_zone.
+
+(** A decoder with an additional syntactic test [f] of the name in front of
+    the lookup satisfies the round-trip clause only if [f] lets every name of
+    the database through; the test of seeded change C18-J (letters, digits,
+    [/], [_], [-]) does not: Etc/GMT+5 is in the database, its schedule reads
+    back from both forms, and the filtered decoder refuses both documents. *)
+Theorem C18_name_filter_must_accept_known : forall f known,
+  (forall sc, sched_ok sc -> zone_reloads known (sc_zone sc) ->
+              decode_zdoc_filtered f known parse_yaml_dur (marshal_zdoc tu_string sc) = inr sc) ->
+  forall z, plain_name z = true -> known z = true -> f z = true.
+Proof. exact name_filter_must_accept_known. Qed.
+Print Assumptions C18_name_filter_must_accept_known.
+
+Theorem C18_name_filter_refuted :
+  exists known sc,
+    sched_ok sc /\ plain_name (sc_zone sc) = true /\ known (sc_zone sc) = true /\
+    decode_zdoc known parse_yaml_dur (marshal_zdoc tu_string sc) = inr sc /\
+    decode_zdoc known parse_json_dur (marshal_zdoc print_ms_text sc) = inr sc /\
+    decode_zdoc_filtered j_name_ok known parse_yaml_dur (marshal_zdoc tu_string sc) = inl ZZone /\
+    decode_zdoc_filtered j_name_ok known parse_json_dur (marshal_zdoc print_ms_text sc) = inl ZZone.
+Proof. exact name_filter_refuted. Qed.
+Print Assumptions C18_name_filter_refuted.
+
+(** Non-vacuity: names with [+], [-], digits, three levels are plain; "",
+    "UTC", "Local" are not; unknown, dot-dot and rooted names do not load. *)
+Example C18_zone_names_example :
+  plain_name zone_etc_gmt_plus_5 = true /\ plain_name zone_buenos_aires = true /\
+  plain_name zone_etc_gmt_minus_14 = true /\ plain_name zone_gmt_plus_0 = true /\
+  plain_name zone_utc = false /\ plain_name zone_local = false /\ plain_name nil = false /\
+  j_name_ok zone_etc_gmt_plus_5 = false /\ j_name_ok zone_gmt_plus_0 = false /\
+  j_name_ok zone_buenos_aires = true /\ j_name_ok zone_etc_gmt_minus_14 = true /\
+  load_location (fun _ => false) zone_etc_gmt_plus_5 = None /\
+  load_location (fun _ => true) (cons 46%N (cons 46%N (cons 47%N (cons 85%N (cons 84%N (cons 67%N nil)))))) = None /\
+  load_location (fun _ => true) (cons 47%N (cons 85%N (cons 84%N (cons 67%N nil)))) = None.
+Proof. exact ex_zone_names. Qed.
+Print Assumptions C18_zone_names_example.
